@@ -60,6 +60,22 @@ class ParseWarnings:
     type: MystWarnings = MystWarnings.DIRECTIVE_PARSING
 
 
+
+_LINE_END = re.compile(r"\r\n|\r|\n")
+
+
+def _split_lines(text: str) -> list[str]:
+    """Split text into lines at line endings only.
+
+    ``str.splitlines`` also splits at form feeds, U+2028 and other separators,
+    which belong to the content (e.g. of a code block).
+    """
+    lines = _LINE_END.split(text)
+    if lines and not lines[-1]:
+        lines.pop()
+    return lines
+
+
 @dataclass
 class DirectiveParsingResult:
     arguments: list[str]
@@ -117,17 +133,17 @@ def parse_directive_text(
         parse_warnings = result.warnings
         has_options_block = result.has_options
         options = result.options
-        body_lines = result.content.splitlines()
+        body_lines = _split_lines(result.content)
         # note, a trailing blank line is lost when the content lines are re-joined,
         # so is not counted on either side
-        content_offset = len(content.rstrip().splitlines()) - len(
-            result.content.rstrip().splitlines()
+        content_offset = len(_split_lines(content.rstrip())) - len(
+            _split_lines(result.content.rstrip())
         )
     else:
         parse_warnings = []
         has_options_block = False
         options = {}
-        body_lines = content.splitlines()
+        body_lines = _split_lines(content)
         content_offset = 0
 
     if not (directive_class.required_arguments or directive_class.optional_arguments):
@@ -187,7 +203,7 @@ def _parse_directive_options(
     options_block: None | str = None
     if content.startswith("---"):
         line = None if line is None else line + 1
-        content = "\n".join(content.splitlines()[1:])
+        content = "\n".join(_split_lines(content)[1:])
         match = re.search(r"^-{3,}", content, re.MULTILINE)
         if match:
             options_block = content[: match.start()]
@@ -197,7 +213,7 @@ def _parse_directive_options(
             content = ""
         options_block = dedent(options_block)
     elif content.lstrip().startswith(":"):
-        content_lines = content.splitlines()
+        content_lines = _split_lines(content)
         yaml_lines = []
         while content_lines:
             if not content_lines[0].lstrip().startswith(":"):
